@@ -275,7 +275,14 @@ fn encode<'t, T>(
                         pattern.push(')');
                     }
                 },
-                (Only, Wildcard(Tree { .. })) => grouping.push_str(pattern, ".*"),
+                (Only, Wildcard(Tree { has_root })) => {
+                    if *has_root && superposition.is_none() {
+                        grouping.push_str(pattern, sepexpr!("{0}.*"));
+                    }
+                    else {
+                        grouping.push_str(pattern, ".*");
+                    }
+                },
             },
             TokenTopology::Branch(branch) => match branch {
                 Alternation(alternation) => {
